@@ -110,7 +110,8 @@ def run_once(job, func, args, specns):
         except Exception as e:
             return 'pre-false', {'clause': r, 'error': repr(e)}
     try:
-        result = func(*[env[n] for n in names])
+        gp = job.get('ghost_params', [])    # ghost parameters exist in the contract only
+        result = func(*[env[n] for n in names if n not in gp])
         raised = None
     except BaseException as e:  # noqa
         result, raised = None, e
